@@ -253,6 +253,7 @@ def getXOp (j : Json) : Except String (XOp Int) := do
   | "next" => pure (.next (← i))
   | "drain" => pure (.drain (← i))
   | "attr" => pure (.attr (← i) (attrXT (← getNat (← field j "g"))))
+  | "nextattr" => pure (.nextAttr (← i))
   | _ => throw s!"bad xop {o}"
 
 def callsOf {α : Type} (c : Codec α) (fl : Nat) (j : Json) : Except String Json := do
